@@ -1269,6 +1269,7 @@ R_FIX = 're-read parameters have the same fixedness'
 R_RVNAMES = 're-read random variables have the same names in the same order'
 R_RVSTRUCT = 're-read random variables have the same joint structure, levels and (co)variance values'
 R_SPELL = 'values that were not changed keep their original spelling'
+R_SPELL_SC = 'values of an unchanged record in a non-default scale (SD / CORRELATION / CHOLESKY) keep their original spelling'
 
 _TEMPLATE = """$PROBLEM layout
 $INPUT ID TIME DV
@@ -1282,20 +1283,22 @@ $ESTIMATION METHOD=1 INTER
 """
 
 
-def _pred(nt, ne, ns):
+def _pred(nt, ne, ns, variant='mul'):
+    """$PRED using every theta, eta and epsilon, each random effect through its own variable
+    (variant 'bare': the first eta enters as E1 = EXP(ETA(1)), otherwise E1 = X*EXP(ETA(1)))"""
     lines = [f'P{i} = THETA({i})' for i in range(1, nt + 1)]
-    lines.append('E1 = EXP(ETA(1))')
-    lines += [f'E{i} = ETA({i})' for i in range(2, ne + 1)]
     lines.append('X = ' + ' + '.join(f'P{i}' for i in range(1, nt + 1)))
-    lines.append('Z = X*E1' + ''.join(f' + E{i}' for i in range(2, ne + 1)))
+    lines.append('E1 = EXP(ETA(1))' if variant == 'bare' else 'E1 = X*EXP(ETA(1))')
+    lines += [f'E{i} = ETA({i})' for i in range(2, ne + 1)]
+    lines.append('Z = ' + ('X*E1' if variant == 'bare' else 'E1') + ''.join(f' + E{i}' for i in range(2, ne + 1)))
     y = 'Y = Z + Z*EPS(1)' + ''.join(f' + EPS({i})' for i in range(2, ns + 1))
     lines.append(y)
     return '\n'.join(lines)
 
 
 def _layout_code(lay):
-    return _TEMPLATE.format(pred=_pred(lay['nt'], lay['ne'], lay['ns']), theta=lay['theta'],
-                            omega=lay['omega'], sigma=lay['sigma'])
+    return _TEMPLATE.format(pred=_pred(lay['nt'], lay['ne'], lay['ns'], lay.get('pred', 'mul')),
+                            theta=lay['theta'], omega=lay['omega'], sigma=lay['sigma'])
 
 
 # --- layouts ----------------------------------------------------------------------------------
@@ -1363,7 +1366,7 @@ def _theta_layouts(tier):
         if text in seen:
             return
         seen.add(text)
-        out.append({'family': 'theta', 'nt': len(forms), 'ne': 1, 'ns': 1, 'theta': text,
+        out.append({'family': 'theta', 'cls': '$THETA', 'nt': len(forms), 'ne': 1, 'ns': 1, 'theta': text,
                     'omega': _SIMPLE_OMEGA['text'], 'sigma': _SIMPLE_SIGMA['text'],
                     'spell': {v[0]: v[1] for v in spell.values()}, 'scaled': []})
 
@@ -1388,24 +1391,27 @@ def _theta_layouts(tier):
     # (value)xn repeats
     for text, nt, spell in (
         ('$THETA (0,1.50)x2', 2, {'THETA_1': ['1.50'], 'THETA_2': ['1.50']}),
+        ('$THETA (1.50)x2', 2, {'THETA_1': ['1.50'], 'THETA_2': ['1.50']}),
         ('$THETA (0,1.50,9.5)x2 3.25 FIX', 3, {'THETA_1': ['1.50', '9.5'], 'THETA_2': ['1.50', '9.5'], 'THETA_3': ['3.25']}),
         ('$THETA 3.25\n$THETA (1.50)x2', 3, {'THETA_1': ['3.25'], 'THETA_2': ['1.50'], 'THETA_3': ['1.50']}),
     ):
-        out.append({'family': 'theta', 'nt': nt, 'ne': 1, 'ns': 1, 'theta': text, 'omega': _SIMPLE_OMEGA['text'],
-                    'sigma': _SIMPLE_SIGMA['text'], 'spell': spell, 'scaled': []})
+        out.append({'family': 'theta', 'cls': '$THETA (value)xn', 'nt': nt, 'ne': 1, 'ns': 1, 'theta': text,
+                    'omega': _SIMPLE_OMEGA['text'], 'sigma': _SIMPLE_SIGMA['text'], 'spell': spell, 'scaled': []})
     return out
 
 
-# omega layouts: (text with {R} for the record name, number of etas, spelling per parameter
-# suffix 'i_j', records with a non-default scale: list of parameter-suffix groups)
 def _omega_specs(tier):
+    """(text with ${R} for the record name, number of etas, spelling per parameter suffix 'i_j',
+    groups of parameter suffixes written in a non-default scale, layout class)"""
     S = []
+    cls = ['']
 
-    def add(text, n, spell, scaled=()):
-        S.append((text, n, spell, [list(g) for g in scaled]))
+    def add(text, n, spell, scaled=(), pred='mul'):
+        S.append((text, n, spell, [list(g) for g in scaled], cls[0], pred))
 
     d3 = {'1_1': ['0.10'], '2_2': ['0.20'], '3_3': ['0.30']}
     d2 = {'1_1': ['0.10'], '2_2': ['0.20']}
+    cls[0] = 'DIAGONAL'
     add('${R} 0.10', 1, {'1_1': ['0.10']})
     add('${R} 0.10 0.20', 2, d2)
     add('${R} 0.10 0.20 0.30', 3, d3)
@@ -1416,22 +1422,26 @@ def _omega_specs(tier):
     add('${R} 0.10\n${R} 0.20 0.30', 3, d3)
     add('${R} DIAGONAL(3) 0.10 0.20 0.30', 3, d3)
     add('${R} DIAGONAL(2) 0.10 0.20\n${R} 0.30', 3, d3)
-    # FIX at value level / record level
+    cls[0] = 'DIAGONAL, first eta as bare EXP(ETA(1))'
+    add('${R} 0.10', 1, {'1_1': ['0.10']}, pred='bare')
+    add('${R} 0.10\n0.20\n0.30', 3, d3, pred='bare')
+    cls[0] = 'DIAGONAL with FIX'
     add('${R} 0.10 FIX 0.20 0.30', 3, d3)
     add('${R} 0.10 0.20 FIX 0.30 FIX', 3, d3)
     add('${R} (0.10 FIX) 0.20 (FIX 0.30)', 3, d3)
     add('${R} 0.10 FIX\n${R} 0.20\n${R} 0.30 FIX', 3, d3)
-    # SD at value level
+    add('${R} 0.10 FIX\n0.20 FIX\n0.30 FIX', 3, d3)
+    cls[0] = 'DIAGONAL with SD'
     add('${R} 0.10 SD 0.20 0.30', 3, d3, [['1_1']])
     add('${R} (0.10 SD) (0.20 SD FIX) 0.30 VARIANCE', 3, d3, [['1_1'], ['2_2']])
-    # (value)xn
+    cls[0] = 'DIAGONAL (value)xn'
     add('${R} (0.10)x2', 2, {'1_1': ['0.10'], '2_2': ['0.10']})
     add('${R} 0.30 (0.10)x2', 3, {'1_1': ['0.30'], '2_2': ['0.10'], '3_3': ['0.10']})
-    # blocks
     b2 = {'1_1': ['0.10'], '2_1': ['0.01'], '2_2': ['0.20']}
     b3 = {'1_1': ['0.10'], '2_1': ['0.01'], '2_2': ['0.20'], '3_1': ['0.02'], '3_2': ['0.03'], '3_3': ['0.30']}
     b2d = dict(b2, **{'3_3': ['0.30']})
     db2 = {'1_1': ['0.30'], '2_2': ['0.10'], '3_2': ['0.01'], '3_3': ['0.20']}
+    cls[0] = 'BLOCK'
     add('${R} BLOCK(2) 0.10 0.01 0.20', 2, b2)
     add('${R} BLOCK(2)\n0.10\n0.01 0.20', 2, b2)
     add('${R} BLOCK(2) 0.10 0.01 0.20\n${R} 0.30', 3, b2d)
@@ -1439,46 +1449,52 @@ def _omega_specs(tier):
     add('${R} 0.30\n${R} BLOCK(2) 0.10 0.01 0.20', 3, db2)
     add('${R} BLOCK(3) 0.10 0.01 0.20 0.02 0.03 0.30', 3, b3)
     add('${R} BLOCK(3)\n0.10\n0.01 0.20\n0.02 0.03 0.30', 3, b3)
+    add('${R} BLOCK(1) 0.10\n${R} BLOCK(1) 0.20', 2, d2)
+    cls[0] = 'BLOCK with FIX'
     add('${R} BLOCK(2) FIX 0.10 0.01 0.20\n${R} 0.30', 3, b2d)
     add('${R} BLOCK(2) 0.10 0.01 0.20 FIX\n${R} 0.30', 3, b2d)
     add('${R} BLOCK(2) (0.10 FIX) 0.01 0.20\n${R} 0.30', 3, b2d)
     add('${R} BLOCK(2) 0.10 0.01 0.20\n${R} 0.30 FIX', 3, b2d)
     add('${R} BLOCK(3) FIX 0.10 0.01 0.20 0.02 0.03 0.30', 3, b3)
     add('${R} BLOCK(3) 0.10 0.01 0.20 0.02 0.03 0.30 FIX', 3, b3)
-    add('${R} BLOCK(1) 0.10\n${R} BLOCK(1) 0.20', 2, d2)
+    cls[0] = 'BLOCK VALUES'
     add('${R} BLOCK(2) VALUES(0.10,0.01)', 2, {'1_1': ['0.10'], '2_1': ['0.01'], '2_2': ['0.10']})
-    # SAME
+    cls[0] = 'BLOCK SAME'
     add('${R} BLOCK(1) 0.10\n${R} BLOCK(1) SAME', 2, {'1_1': ['0.10']})
     add('${R} BLOCK(1) 0.10\n${R} BLOCK SAME\n${R} 0.30', 3, {'1_1': ['0.10'], '3_3': ['0.30']})
     add('${R} BLOCK(2) 0.10 0.01 0.20\n${R} BLOCK(2) SAME', 4, b2)
     add('${R} 0.30\n${R} BLOCK(1) FIX 0.10\n${R} BLOCK(1) SAME', 3, {'1_1': ['0.30'], '2_2': ['0.10']})
-    # scales
     g2 = [['1_1', '2_1', '2_2']]
     g3 = [['1_1', '2_1', '2_2', '3_1', '3_2', '3_3']]
     sp2 = {'1_1': ['0.50'], '2_1': ['0.10'], '2_2': ['0.40']}
     sp3 = {'1_1': ['0.50'], '2_1': ['0.10'], '2_2': ['0.40'], '3_1': ['0.20'], '3_2': ['0.15'], '3_3': ['0.60']}
+    sp2d = dict(sp2, **{'3_3': ['0.30']})
     for opts in ('SD CORRELATION', 'STANDARD COVARIANCE', 'VARIANCE CORRELATION', 'VARIANCE COVARIANCE',
                  'CHOLESKY', 'SD'):
+        cls[0] = 'BLOCK ' + opts
         add('${R} BLOCK(2) %s 0.50 0.10 0.40' % opts, 2, sp2, g2)
-        add('${R} BLOCK(2) %s\n0.50\n0.10 0.40\n${R} 0.30' % opts, 3, dict(sp2, **{'3_3': ['0.30']}), g2)
-    for opts in ('SD CORRELATION', 'CHOLESKY'):
-        add('${R} BLOCK(3) %s\n0.50\n0.10 0.40\n0.20 0.15 0.60' % opts, 3, sp3, g3)
-        add('${R} BLOCK(2) %s FIX 0.50 0.10 0.40\n${R} 0.30' % opts, 3, dict(sp2, **{'3_3': ['0.30']}), g2)
-        add('${R} BLOCK(2) 0.50 0.10 0.40 %s\n${R} 0.30' % opts, 3, dict(sp2, **{'3_3': ['0.30']}), g2)
+        add('${R} BLOCK(2) %s\n0.50\n0.10 0.40\n${R} 0.30' % opts, 3, sp2d, g2)
+        if opts in ('SD CORRELATION', 'CHOLESKY'):
+            add('${R} BLOCK(3) %s\n0.50\n0.10 0.40\n0.20 0.15 0.60' % opts, 3, sp3, g3)
+            add('${R} BLOCK(2) %s FIX 0.50 0.10 0.40\n${R} 0.30' % opts, 3, sp2d, g2)
+            add('${R} BLOCK(2) 0.50 0.10 0.40 %s\n${R} 0.30' % opts, 3, sp2d, g2)
     if tier == 'thorough':
+        cls[0] = 'BLOCK SD CORRELATION'
         add('${R} BLOCK(2) CORRELATION SD FIX\n0.50\n0.10 0.40', 2, sp2, g2)
         add('${R} 0.30\n${R} BLOCK(2) SD CORRELATION 0.50 0.10 0.40', 3,
             {'1_1': ['0.30'], '2_2': ['0.50'], '3_2': ['0.10'], '3_3': ['0.40']}, [['2_2', '3_2', '3_3']])
+        cls[0] = 'BLOCK VARIANCE CORRELATION'
         add('${R} BLOCK(3) VARIANCE CORRELATION\n0.50\n0.10 0.40\n0.20 0.15 0.60', 3, sp3, g3)
+        cls[0] = 'BLOCK STANDARD COVARIANCE'
         add('${R} BLOCK(3) STANDARD COVARIANCE\n0.50\n0.10 0.40\n0.20 0.15 0.60', 3, sp3, g3)
     return S
 
 
 def _omega_layouts(tier):
     out = []
-    for text, n, spell, scaled in _omega_specs(tier):
-        out.append({'family': 'omega', 'nt': 2, 'ne': n, 'ns': 1, 'theta': _SIMPLE_THETA,
-                    'omega': text.replace('${R}', '$OMEGA'), 'sigma': _SIMPLE_SIGMA['text'],
+    for text, n, spell, scaled, cls, pred in _omega_specs(tier):
+        out.append({'family': 'omega', 'cls': '$OMEGA ' + cls, 'nt': 2, 'ne': n, 'ns': 1, 'pred': pred,
+                    'theta': _SIMPLE_THETA, 'omega': text.replace('${R}', '$OMEGA'), 'sigma': _SIMPLE_SIGMA['text'],
                     'spell': {'OMEGA_' + k: v for k, v in spell.items()},
                     'scaled': [['OMEGA_' + s for s in g] for g in scaled]})
     return out
@@ -1486,13 +1502,11 @@ def _omega_layouts(tier):
 
 def _sigma_layouts(tier):
     out = []
-    for text, n, spell, scaled in _omega_specs(tier):
-        if n > 2 and tier != 'thorough':
+    for text, n, spell, scaled, cls, pred in _omega_specs(tier):
+        if n > 3 or pred != 'mul' or (n > 2 and tier != 'thorough'):
             continue
-        if n > 3:
-            continue
-        out.append({'family': 'sigma', 'nt': 2, 'ne': 1, 'ns': n, 'theta': _SIMPLE_THETA,
-                    'omega': _SIMPLE_OMEGA['text'], 'sigma': text.replace('${R}', '$SIGMA'),
+        out.append({'family': 'sigma', 'cls': '$SIGMA ' + cls, 'nt': 2, 'ne': 1, 'ns': n, 'pred': 'mul',
+                    'theta': _SIMPLE_THETA, 'omega': _SIMPLE_OMEGA['text'], 'sigma': text.replace('${R}', '$SIGMA'),
                     'spell': {'SIGMA_' + k: v for k, v in spell.items()},
                     'scaled': [['SIGMA_' + s for s in g] for g in scaled]})
     return out
@@ -1731,10 +1745,10 @@ _KIND_LABEL = {
 }
 
 
-def _edit_label(family, edits):
+def _edit_label(cls, edits):
     if not edits:
-        return f'{family} layout, no edit'
-    return f'{family} layout, after ' + ' then '.join(_KIND_LABEL[e[0]] for e in edits)
+        return f'{cls} layout, no edit'
+    return f'{cls} layout, after ' + ' then '.join(_KIND_LABEL[e[0]] for e in edits)
 
 
 class _RFails:
@@ -1743,7 +1757,7 @@ class _RFails:
 
     def add(self, fid, clause, detail, lay, edits):
         key = (fid, clause)
-        case = {'layout': {k: lay[k] for k in ('family', 'nt', 'ne', 'ns', 'theta', 'omega', 'sigma', 'spell', 'scaled')},
+        case = {'layout': {k: lay[k] for k in ('family', 'cls', 'pred', 'nt', 'ne', 'ns', 'theta', 'omega', 'sigma', 'spell', 'scaled') if k in lay},
                 'edits': edits, 'fid': fid, 'clause': clause}
         size = (len(edits), lay['nt'] + lay['ne'] + lay['ns'], len(lay['theta']) + len(lay['omega']) + len(lay['sigma']))
         if key not in self.items or size < self.items[key][0]:
@@ -1758,7 +1772,7 @@ def _check_roundtrip(m0, m2, lay, edits, fails):
 
     family = lay['family']
     fid = FID_UPD_TH if family == 'theta' else FID_UPD_RV
-    label = _edit_label(family, edits)
+    label = _edit_label(lay['cls'], edits)
 
     def cl(c):
         return f'{label}: {c}'
@@ -1842,7 +1856,7 @@ def _check_roundtrip(m0, m2, lay, edits, fails):
                 same_dist.update(x for x in row if x)
     unchanged = {n for n in p0 if n in p2 and p0[n] == p2[n]}
     scaled_members = {n for g in lay['scaled'] for n in g}
-    lost = []
+    lost, lost_sc = [], []
     for name, toks in lay['spell'].items():
         if name not in unchanged:
             continue
@@ -1856,10 +1870,13 @@ def _check_roundtrip(m0, m2, lay, edits, fails):
         text = _records_text(code, rec)
         for t in toks:
             if not _has_token(text, t):
-                lost.append((name, t))
+                (lost_sc if name in scaled_members else lost).append((name, t))
     if lost:
-        fails.add(fid, cl(R_SPELL), ctx + f'unchanged (parameter, original spelling) no longer in the ${rec} text: {lost}',
+        fails.add(fid, cl(R_SPELL), ctx + f'unchanged (parameter, original spelling) no longer in the record text: {lost}',
                   lay, edits)
+    if lost_sc:
+        fails.add(fid, cl(R_SPELL_SC), ctx + f'unchanged (parameter, original spelling) no longer in the record text: '
+                                             f'{lost_sc}', lay, edits)
     return True
 
 
@@ -1888,14 +1905,14 @@ def _run_layout(lay, depth):
     except ModelSyntaxError:
         return cases, nontrivial, fails  # documented: the layout is not legal for pharmpy
     except Exception as e:
-        fails.add(FID_PARSE, f'{family} layout: {R_READ}', f'layout {code!r}: {_exc_str(e)}', lay, [])
+        fails.add(FID_PARSE, f'{lay["cls"]} layout: {R_READ}', f'layout {code!r}: {_exc_str(e)}', lay, [])
         return cases, nontrivial, fails
     nontrivial += 1
     try:
         if m0.code != code:
-            fails.add(fid, f'{family} layout, no edit: {R_IDENT}', f'layout {code!r} regenerated as {m0.code!r}', lay, [])
+            fails.add(fid, f'{lay["cls"]} layout, no edit: {R_IDENT}', f'layout {code!r} regenerated as {m0.code!r}', lay, [])
     except Exception as e:
-        fails.add(fid, f'{family} layout, no edit: {R_PARSE}', f'layout {code!r}: {_exc_str(e)}', lay, [])
+        fails.add(fid, f'{lay["cls"]} layout, no edit: {R_PARSE}', f'layout {code!r}: {_exc_str(e)}', lay, [])
     _check_roundtrip(m0, m0, lay, [], fails)
 
     def rec(model, edits, d):
@@ -1903,7 +1920,7 @@ def _run_layout(lay, depth):
         try:
             cand = _edits_for(model, family)
         except Exception as e:
-            fails.add(fid, f'{_edit_label(family, edits)}: {R_RVSTRUCT}',
+            fails.add(fid, f'{_edit_label(lay["cls"], edits)}: {R_RVSTRUCT}',
                       f'layout {code!r} edits {edits}: model not inspectable: {_exc_str(e)}', lay, edits)
             return
         for e in cand:
@@ -1914,7 +1931,7 @@ def _run_layout(lay, depth):
             except ValueError:
                 continue  # rejected input (documented)
             except Exception as ex:
-                fails.add(_FID_EDIT[e[0]], f'{_edit_label(family, seq)}: {R_NOERR}',
+                fails.add(_FID_EDIT[e[0]], f'{_edit_label(lay["cls"], seq)}: {R_NOERR}',
                           f"layout {lay['theta']!r} | {lay['omega']!r} | {lay['sigma']!r}, edits {seq}: {_exc_str(ex)} :: "
                           + traceback.format_exc()[-250:], lay, seq)
                 continue
@@ -2000,16 +2017,16 @@ def bounded_record_updates_replay(rp):
         except ModelSyntaxError:
             return (True, 'ok')
         except Exception as e:
-            fails.add(FID_PARSE, f'{family} layout: {R_READ}', f'layout {code!r}: {_exc_str(e)}', lay, [])
+            fails.add(FID_PARSE, f'{lay["cls"]} layout: {R_READ}', f'layout {code!r}: {_exc_str(e)}', lay, [])
             m0 = None
         if m0 is not None:
             edits = case['edits']
             if not edits:
                 try:
                     if m0.code != code:
-                        fails.add(fid, f'{family} layout, no edit: {R_IDENT}', f'regenerated as {m0.code!r}', lay, [])
+                        fails.add(fid, f'{lay["cls"]} layout, no edit: {R_IDENT}', f'regenerated as {m0.code!r}', lay, [])
                 except Exception as e:
-                    fails.add(fid, f'{family} layout, no edit: {R_PARSE}', _exc_str(e), lay, [])
+                    fails.add(fid, f'{lay["cls"]} layout, no edit: {R_PARSE}', _exc_str(e), lay, [])
             m = m0
             ok = True
             for i, e in enumerate(edits):
@@ -2019,7 +2036,7 @@ def bounded_record_updates_replay(rp):
                     ok = False
                     break
                 except Exception as ex:
-                    fails.add(_FID_EDIT[e[0]], f'{_edit_label(family, edits[: i + 1])}: {R_NOERR}', _exc_str(ex), lay,
+                    fails.add(_FID_EDIT[e[0]], f'{_edit_label(lay["cls"], edits[: i + 1])}: {R_NOERR}', _exc_str(ex), lay,
                               edits[: i + 1])
                     ok = False
                     break
